@@ -11,6 +11,7 @@ import BV.C05.Lemmas6
 import BV.C05.Lemmas7
 import BV.C05.Lemmas8
 import BV.C05.Lemmas9
+import BV.C05.Lemmas14
 import BV.Generated.C05
 namespace BV.C05
 open Treap
@@ -258,8 +259,9 @@ theorem witness_merged :
 example : collectFwd cmpNat witnessSh witnessA witnessB 5 (mFirst cmpNat witnessSh witnessA witnessB)
     = [(1, 10), (2, 20), (3, 30)] := by decide
 
-/-- `cursor_mixed_full_fails` (finding F-C05-a): for arbitrary operation sequences the cursor is NOT
-navigation in the merged list: after `First, Next, Next` (at key 3) `Prev` yields key 1, the
+/-- `cursor_mixed_full_fails` (finding F-C05-a, the algorithm BEFORE the repair: `mNext`/`mPrev` step
+the current iterator only): for arbitrary operation sequences that cursor is NOT navigation in the
+merged list: after `First, Next, Next` (at key 3) `Prev` yields key 1, the
 predecessor in the merged list [1,2,3] is 2. -/
 theorem cursor_mixed_full_fails :
     ¬ ∀ (A B : List (Nat × Nat)) (sh : Nat → Bool),
@@ -273,13 +275,45 @@ theorem cursor_mixed_full_fails :
   revert h1
   decide
 
-/-- `cursor_mixed_partial`: what IS proved for cursors: runs that keep one direction after being
-positioned (`cursor_forward`, `cursor_backward`). Missing: operation sequences that change
-direction without repositioning (finding F-C05-a, `cursor_mixed_full_fails`). -/
-theorem cursor_mixed_partial {K V : Type} (cmp : K → K → Ordering) (sh : K → Bool) (A B : List (K × V)) :
-    fwdRun cmp sh A B = mergeSorted cmp (A.filter (fun x => !sh x.1)) B ∧
-    bwdRun cmp sh A B = mergeSorted (fun x y => cmp y x) (A.reverse.filter (fun x => !sh x.1)) B.reverse :=
-  ⟨cursor_forward cmp sh A B, cursor_backward cmp sh A B⟩
+/-- `cursor_mixed` (after the repair of F-C05-a, commit 36dfccad: a move against the remembered
+direction re-seeks both iterators past the current key): for EVERY sequence of First / Last / Seek /
+Next / Prev, in any order, the entry the cursor stands on is the one obtained by navigating in the
+sorted merged view of the two layers (first, last, first ≥ k, successor, predecessor; an exhausted
+cursor stays exhausted until it is repositioned). `fStep` is the algorithm as written:
+`chooseIterator` with `skipPendingUpdates` over two lawful sub-iterators, `reseekPast` on a change
+of direction. -/
+theorem cursor_mixed {K V : Type} (cmp : K → K → Ordering) (h : OrdLaws cmp) (sh : K → Bool)
+    (A B : List (K × V)) (hA : SortedKeys cmp A) (hB : SortedKeys cmp B)
+    (hsh : ∀ y ∈ B, sh y.1 = true) (ops : List (MOp K)) :
+    (ops.foldl (fStep cmp sh A B) curInit).m.entry =
+      ops.foldl (specNav cmp (mergeSorted cmp (A.filter (fun x => !sh x.1)) B)) none := by
+  have S : Lemmas.Setting cmp sh A B := ⟨h, hA, hB, hsh⟩
+  have hd : ∀ x ∈ Lemmas.unsh sh A, ∀ y ∈ B, cmp x.1 y.1 ≠ .eq := fun x hx => S.absentY hx
+  have hstep : ∀ (c : Option (K × V)) (op : MOp K),
+      Lemmas.specU cmp (Lemmas.unsh sh A) B c op =
+        specNav cmp (mergeSorted cmp (A.filter (fun x => !sh x.1)) B) c op := by
+    intro c op
+    cases op with
+    | first => exact (Lemmas.head_merge _ _).symm
+    | last => exact (Lemmas.getLast_merge h _ _ S.sortedX hB hd).symm
+    | seek k => exact (Lemmas.firstGE_merge h k _ _).symm
+    | next => cases c with
+      | none => rfl
+      | some e => exact (Lemmas.firstGT_merge h e.1 _ _).symm
+    | prev => cases c with
+      | none => rfl
+      | some e => exact (Lemmas.lastLT_merge h e.1 _ _ S.sortedX hB hd).symm
+  have hfold : ∀ (c : Option (K × V)), ops.foldl (Lemmas.specU cmp (Lemmas.unsh sh A) B) c =
+      ops.foldl (specNav cmp (mergeSorted cmp (A.filter (fun x => !sh x.1)) B)) c := by
+    induction ops with
+    | nil => intro c; rfl
+    | cons op ops ih => intro c; simp only [List.foldl_cons]; rw [hstep, ih]
+  rw [← hfold]
+  exact (Lemmas.run_inv S ops curInit none Lemmas.init_inv_cur).1
+
+/-- the repaired algorithm on the F-C05-a witness: First, Next, Next, Prev now stands on key 2 -/
+example : ([MOp.first, .next, .next, .prev].foldl (fStep cmpNat witnessSh witnessA witnessB) curInit).m.entry
+    = some (2, 20) := by decide
 
 /-! ### (d) nested buckets as key prefixes -/
 
